@@ -93,17 +93,11 @@ def network_simplex(
     root = n
 
     # Spanning tree: parent[i] = parent node, pred[i] = arc to parent, depth[i] = tree depth
-    # thread/rev_thread = preorder traversal links for fast subtree iteration
     parent = [root] * total_nodes
     parent[root] = -1
     pred = list(range(m, m + n)) + [-1]
     depth = [1] * total_nodes
     depth[root] = 0
-    thread = list(range(1, total_nodes)) + [0]
-    thread[n - 1] = root
-    thread[root] = 0
-    rev_thread = [root] + list(range(total_nodes - 1))
-    rev_thread[root] = n - 1
 
     # pi[i] = node potential (dual variable); reduced cost = cost - pi[src] + pi[tgt]
     pi = [0.0] * total_nodes
@@ -225,60 +219,38 @@ def network_simplex(
                 state[arc] = 0
 
         if leaving != entering:
+            # Removing the leaving arc cuts off the subtree that contains one endpoint of the
+            # entering arc; that subtree is re-hung from this endpoint below the other one.
             if leaving_first:
-                leaving_node = first
-                while pred[leaving_node] != leaving:
-                    leaving_node = parent[leaving_node]
-                new_parent = second
+                node, up = first, second
             else:
-                leaving_node = second
-                while pred[leaving_node] != leaving:
-                    leaving_node = parent[leaving_node]
-                new_parent = first
+                node, up = second, first
 
-            prev_thread = rev_thread[leaving_node]
-            subtree_last = leaving_node
-            node = thread[leaving_node]
-            while depth[node] > depth[leaving_node]:
-                subtree_last = node
-                node = thread[node]
-
-            thread[prev_thread] = thread[subtree_last]
-            rev_thread[thread[subtree_last]] = prev_thread
-
-            attach_point = new_parent
-            node = thread[new_parent]
-            while node != new_parent and depth[node] > depth[new_parent]:
-                attach_point = node
-                node = thread[node]
-
-            thread[subtree_last] = thread[attach_point]
-            if thread[attach_point] < total_nodes:
-                rev_thread[thread[attach_point]] = subtree_last
-            thread[attach_point] = leaving_node
-            rev_thread[leaving_node] = attach_point
-
-            parent[leaving_node] = new_parent
-            pred[leaving_node] = entering
-
-            diff = depth[new_parent] + 1 - depth[leaving_node]
-            node = leaving_node
+            # Reverse the parent pointers on the path from the endpoint up to the leaving arc
+            arc = entering
             while True:
-                depth[node] += diff
-                node = thread[node]
-                if depth[node] <= depth[leaving_node] - diff or node == leaving_node:
+                old_parent, old_arc = parent[node], pred[node]
+                parent[node], pred[node] = up, arc
+                if old_arc == leaving:
                     break
+                up, arc, node = node, old_arc, old_parent
 
-            node = leaving_node
-            while True:
-                arc = pred[node]
-                if source[arc] == parent[node]:
-                    pi[node] = pi[parent[node]] - cost[arc]
-                else:
-                    pi[node] = pi[parent[node]] + cost[arc]
-                node = thread[node]
-                if depth[node] <= depth[new_parent] or node == leaving_node:
-                    break
+            # Recompute depths and potentials of the new spanning tree
+            children: list[list[int]] = [[] for _ in range(total_nodes)]
+            for v in range(total_nodes):
+                if v != root:
+                    children[parent[v]].append(v)
+            stack = [root]
+            while stack:
+                u = stack.pop()
+                for v in children[u]:
+                    arc = pred[v]
+                    depth[v] = depth[u] + 1
+                    if source[arc] == u:
+                        pi[v] = pi[u] - cost[arc]
+                    else:
+                        pi[v] = pi[u] + cost[arc]
+                    stack.append(v)
 
     for arc in range(m, total_arcs):
         if flow[arc] > 0:
